@@ -143,6 +143,88 @@ class Problem:
 
 
 # ----------------------------------------------------------------------
+# duck-typed steps: they follow the Chain protocol (filter / predict) but do NOT derive from verde.base.BaseGridder.
+# Chain's criterion for "can predict" is having a ``predict`` method. They are harness classes, so the tap wraps their
+# methods exactly like verde's and their calls appear in the same call trees.
+# ----------------------------------------------------------------------
+from sklearn.base import BaseEstimator as _SklearnBase  # noqa: E402  (clone / get_params only)
+
+
+def _as_tuple(data):
+    return data if isinstance(data, tuple) else (data,)
+
+
+class LevelStep(_SklearnBase):
+    """filter + predict, no fit: removes the median level of (every component of) the data."""
+
+    def __init__(self, statistic="median"):
+        self.statistic = statistic
+
+    def filter(self, coordinates, data, weights=None):  # noqa: A003
+        func = np.median if self.statistic == "median" else np.mean
+        self.level_ = tuple(float(func(np.asarray(d, dtype="float64"))) for d in _as_tuple(data))
+        pred = _as_tuple(self.predict(coordinates))
+        resid = tuple(d - p.reshape(np.shape(d)) for d, p in zip(_as_tuple(data), pred))
+        return coordinates, (resid if isinstance(data, tuple) and len(data) > 1 else resid[0]), weights
+
+    def predict(self, coordinates):
+        shape = np.broadcast(*coordinates[:2]).shape
+        out = tuple(np.full(shape, level, dtype="float64") for level in self.level_)
+        return out if len(out) > 1 else out[0]
+
+
+class WarpedGridder(_SklearnBase):
+    """fit / filter / predict around a verde estimator that works in sheared and rescaled coordinates; not a BaseGridder."""
+
+    def __init__(self, inner, scale=1.0, shear=0.0):
+        self.inner = inner
+        self.scale = scale
+        self.shear = shear
+
+    def _warp(self, coordinates):
+        east = np.asarray(coordinates[0], dtype="float64")
+        north = np.asarray(coordinates[1], dtype="float64")
+        return (self.scale * (east + self.shear * north), self.scale * north) + tuple(coordinates[2:])
+
+    def fit(self, coordinates, data, weights=None):
+        self.inner.fit(self._warp(coordinates), data, weights)
+        return self
+
+    def predict(self, coordinates):
+        return self.inner.predict(self._warp(coordinates))
+
+    def filter(self, coordinates, data, weights=None):  # noqa: A003
+        self.fit(coordinates, data, weights)
+        pred = _as_tuple(self.predict(coordinates))
+        resid = tuple(d - p.reshape(np.shape(d)) for d, p in zip(_as_tuple(data), pred))
+        return coordinates, (resid if isinstance(data, tuple) and len(data) > 1 else resid[0]), weights
+
+
+class ThinStep(_SklearnBase):
+    """filter only (like a block reduction): keeps every ``keep``-th point; keep=1 hands everything through untouched."""
+
+    def __init__(self, keep=1):
+        self.keep = keep
+
+    def filter(self, coordinates, data, weights=None):  # noqa: A003
+        if self.keep == 1:
+            return coordinates, data, weights
+
+        def thin(arr):
+            return np.ravel(arr)[:: self.keep]
+
+        coords = tuple(thin(c) for c in coordinates)
+        new_data = tuple(thin(d) for d in data) if isinstance(data, tuple) else thin(data)
+        if weights is None:
+            return coords, new_data, None
+        new_weights = tuple(thin(w) for w in weights) if isinstance(weights, tuple) else thin(weights)
+        return coords, new_data, new_weights
+
+
+DUCK_CLASSES = (LevelStep, WarpedGridder, ThinStep)
+
+
+# ----------------------------------------------------------------------
 # random compositions
 # ----------------------------------------------------------------------
 def _occupied(pts, shape, region=None):
@@ -165,6 +247,7 @@ class Builder:
         self.allow_uncertainty = True
         # Chain never required unique step names and fit/predict ignore them: repeat them, also across nesting levels
         self.naming = str(rng.choice(["unique", "unique", "unique", "pool", "pool", "same", "kind"]))
+        self.duck_rate = 0.3
 
     def name(self, base, step=None):
         self.counter += 1
@@ -186,8 +269,10 @@ class Builder:
         if last and m >= 12 and pts is not None:
             kinds += ["linear", "cubic"]
         if depth < self.max_depth and m >= 4:
-            kinds += ["chain", "chain"]
+            kinds += ["chain", "chain", "warped"]
         kind = str(rng.choice(kinds))
+        if kind == "warped":
+            return self.warped(self.gridder(m, None, False, self.max_depth, weighted))
         if kind == "trend":
             return v.Trend(degree=int(rng.integers(0, 4)))
         if kind == "spline":
@@ -212,6 +297,28 @@ class Builder:
         length = int(rng.integers(1, 4))
         steps, _, _ = self.steps(length, m, pts, weighted, depth + 1, ncomp=1, allow_reduce=bool(rng.random() < 0.4), outer_last=last)
         return v.Chain(steps)
+
+    def warped(self, inner):
+        rng = self.rng
+        return WarpedGridder(inner, scale=_log_uniform(rng, 0.1, 10.0), shear=float(rng.uniform(-0.5, 0.5)))
+
+    def duck(self, ncomp, m, pts, weighted):
+        """A duck-typed step for this position: (step, points afterwards, pts afterwards)."""
+        rng = self.rng
+        kind = str(rng.choice(["level", "level", "warped", "warped", "thin", "thin"]))
+        if kind == "level":
+            return LevelStep(statistic=str(rng.choice(["median", "mean"]))), m, pts
+        if kind == "warped":
+            if ncomp == 1:
+                inner = self.gridder(m, None, False, self.max_depth, weighted)
+            else:
+                inner = self.v.Vector([self.gridder(m, None, False, self.max_depth, weighted) for _ in range(ncomp)])
+            return self.warped(inner), m, pts
+        keep = int(rng.choice([1, 2, 3])) if m >= 9 else 1
+        if keep > 1:
+            m = (m + keep - 1) // keep
+            pts = None if pts is None else (pts[0][::keep], pts[1][::keep])
+        return ThinStep(keep=keep), m, pts
 
     # -- multi-component estimators ----------------------------------------
     def vector_step(self, ncomp, m, pts, last, depth, weighted):
@@ -283,12 +390,24 @@ class Builder:
                 red_at.add(int(rng.integers(0, length - 1)))
             elif roll < 0.7 and length >= 3:
                 red_at.update([0, int(rng.integers(1, length - 1))])
+        # duck-typed steps (not BaseGridder): at the first, a middle or the last position, also inside nested chains
+        duck_at = set()
+        if rng.random() < self.duck_rate:
+            free = [k for k in range(length) if k not in red_at]
+            if free:
+                duck_at.add(int(rng.choice(free)))
+                if len(free) > 2 and rng.random() < 0.3:
+                    duck_at.add(int(rng.choice(free)))
         for k in range(length):
             last = outer_last and k == length - 1  # exact interpolators (NaN on the hull) only where nothing is fitted afterwards
             if k in red_at:
                 step, m, weighted = self.reduction(m, pts, weighted)
                 pts = None
                 out.append((self.name("reduce", step), step))
+                continue
+            if k in duck_at:
+                step, m, pts = self.duck(ncomp, m, pts, weighted)
+                out.append((self.name("step", step), step))
                 continue
             if ncomp == 1:
                 step = self.gridder(m, pts, last, depth, weighted)
